@@ -43,7 +43,11 @@ WRAPPERS = ["none", "TimeLimit", "ClipAction", "RescaleAction", "ClipObservation
 def make_env(name, wrapper="none"):
     from lerax import wrapper as W
 
-    if name in CLASSIC:
+    if name == "TabPlainDict":
+        from mc.mdp import TabEnv
+
+        env = TabEnv(np.asarray([[1, 2], [2, 0], [0, 1]]), [False, False, False], [True, True, False], obs_kind="plaindict")
+    elif name in CLASSIC:
         from lerax.env import classic_control as cc
 
         env = getattr(cc, name)()
@@ -172,7 +176,7 @@ def clause_envmodes(cases, ctx: Ctx):
     for ci, c in enumerate(cases):
         name, wrapper = c["env"], c["wrapper"]
         env = make_env(name, wrapper)
-        heavy = name not in CLASSIC
+        heavy = name not in CLASSIC and name != "TabPlainDict"
         # contact-rich simulators amplify float32 reassociation differences between the vmapped and the un-vmapped
         # program within one control step (several solver sub-steps through changing contact sets): looser bound there
         tol = 2e-2 if name in CONTACT_RICH else 1e-4
@@ -491,6 +495,9 @@ def explore(ctx: Ctx):
         for w in WRAPPERS:
             if wrapper_ok(name, w) and (thorough or w in ("none", "TimeLimit") or name in ("Pendulum", "CartPole")):
                 envc.append(dict(env=name, wrapper=w, keys=keys, depth=2, eager="all"))
+    # a Dict observation delivered as a PLAIN dict with non-alphabetical keys, bare and flattened
+    for w in ("none", "FlattenObservation", "TimeLimit"):
+        envc.append(dict(env="TabPlainDict", wrapper=w, keys=keys, depth=2, eager="all"))
     for name in (MUJOCO_ALL if thorough else MUJOCO_QUICK):
         envc.append(dict(env=name, wrapper="none", keys=keys[:2], depth=1, eager="cheap", max_triples=8))
     if thorough:
